@@ -74,7 +74,7 @@ Qed.
 Lemma drain_in_header c0 pre : Start c0 -> drain (set_buf pre c0) = set_buf pre c0.
 Proof.
   intros ((I1 & I2 & I3 & I4 & I5 & I6 & I7 & I8 & I9 & I10 & I11) & Hph0 & Hlost0 & Hcev0 & Hver0).
-  destruct c0 as [o l ce a f rc b hw w hs ln v ph nw T dl]; cbn in *. subst. reflexivity.
+  destruct c0 as [o l ce a f rc b hw w hs ln v ph nw T dl uk]; cbn in *. subst. reflexivity.
 Qed.
 
 (* the body phase with everything the completion argument needs *)
@@ -131,7 +131,7 @@ Qed.
 
 (* connection_lost is only ever queued by a transport event, never by the coroutine *)
 Lemma lost_finish res c : c_lost (finish res c) = c_lost c.
-Proof. unfold finish. destruct (_ && _); reflexivity. Qed.
+Proof. unfold finish. repeat match goal with |- context[if ?b then _ else _] => destruct b end; reflexivity. Qed.
 Lemma lost_run_callbacks c : c_lost (run_callbacks c) = c_lost c.
 Proof. unfold run_callbacks. destruct (w_fin _), (c_verified c); reflexivity. Qed.
 Lemma lost_co_await_fin c : c_lost (co_await_fin c) = c_lost c.
@@ -193,14 +193,14 @@ Proof.
     destruct (closed_means_complete t c Hb Ecl) as [Ht Hw]. pose proof (Hfin eq_refl) as Hres.
     assert (Hrecv : c_received c = n) by (rewrite A8, Hw; exact Hlen).
     clear Hb Hp Hfin A8 A9. subst t.
-    destruct c as [o l ce a f rc b hw w hs ln v ph nw T dl]. destruct w as [wd wc wf].
+    destruct c as [o l ce a f rc b hw w hs ln v ph nw T dl uk]. destruct w as [wd wc wf].
     cbn in Ho, Hl, Hce, A1, A2, A3, A4, A5, A6, A7, Ecl, Hw, Hres, Hrecv. subst o l ce a hw hs f dl ln b wc wd wf rc.
     unfold PhB in Hph. cbn in Hph.
     assert (Hgoal : forall c', B body c' -> c_phase c' = PhDone (DlOk n) -> c_verified c' = Some body ->
                c_received c' = n -> c_open c' = true ->
         B body c' /\ (body = body -> c_phase c' = PhDone (DlOk n) /\ c_verified c' = Some body /\ c_received c' = n /\ c_open c' = true)).
     { intros c' X1 X2 X3 X4 X5. split; [exact X1|]. intros _. repeat split; assumption. }
-    destruct Hph as [[[Hph|[d Hph]] Hv]|[Hph Hv]]; subst ph v;
+    destruct uk; destruct Hph as [[[Hph|[d Hph]] Hv]|[Hph Hv]]; subst ph v;
       rewrite drain_not_lost by reflexivity;
       unfold run_callbacks, co_step, co_await_fin, finish, run_callbacks; cbn -[acceptable Z.add];
       rewrite ?Hacc; cbn -[acceptable Z.add]; (apply Hgoal; [apply B_intro_closed|..]); reflexivity.
@@ -209,7 +209,7 @@ Proof.
     assert (Hne : t <> body) by (intro Heq; rewrite Heq in B4; lia).
     split; [|intro; contradiction].
     clear Hb Hp Hfin B5 Hne.
-    destruct c as [o l ce a f rc b hw w hs ln v ph nw T dl]. destruct w as [wd wc wf].
+    destruct c as [o l ce a f rc b hw w hs ln v ph nw T dl uk]. destruct w as [wd wc wf].
     cbn in Ho, Hl, Hce, A1, A2, A3, A4, A5, A6, A7, A8, B1, B2, B3, Ecl. subst o l ce a hw hs f dl ln b wc wd wf rc.
     unfold PhB in Hph. cbn in Hph.
     destruct Hph as [[[Hph|[d Hph]] Hv]|[Hph Hv]]; subst ph v;
